@@ -9,8 +9,8 @@ claim("C19",
 
 claim("C04",
   "guarded reachability over SSA (type guard, reply filter, post guard), argument-agreement tables, escape/call-site confinement, lockset",
-  "Decides from the source that only Call/Post can reach an implementation method (type guard in the generic stub + raw stubs never escape + stub methods only called from their Receive), that the reply filter compares service/object/action/id and is single-shot and registered before the send, that ids are advanced under a mutex, that error/reply headers carry the request's address and id in the right positions, and that no reply follows a Post once the method ran. Necessary conditions of exactly-one-own-answer; they hold on every path, hence for every schedule.",
-  "Does not decide exactly-once execution or own-result under interleavings (runtime); mailbox FIFO and net semantics trusted. Known finding D12 (malformed Post answered with Error) listed in known_findings.txt.",
+  "Decides from the source that only Call/Post can reach an implementation method (type guard in the generic stub + raw stubs never escape + stub methods only called from their Receive), that the reply filter compares service/object/action/id and is single-shot and registered before the send, that ids are advanced under a mutex, that error/reply headers carry the request's address and id in the right positions, that no reply follows a Post once the method ran and no Channel implementation answers an error to anything but a Call, and that the messages of one object (service-side mailbox, client-side object queue) are handed to it one at a time by one goroutine. Necessary conditions of exactly-one-own-answer; they hold on every path, hence for every schedule.",
+  "Does not decide exactly-once execution or own-result under interleavings (runtime); mailbox FIFO and net semantics trusted. D9 and D12 were repaired in /repo (fixed: lines in known_findings.txt).",
   "DESIGN.md §3 C04")
 
 claim("C06",
@@ -21,7 +21,7 @@ claim("C06",
 
 claim("C10",
   "ownership (who touches the stream / who calls raw Read-Write) + must-pass-once path rules over SSA + lockset",
-  "Decides that Message.Write hands its writer to exactly one WriteN call with the bytes of a private buffer filled header-then-payload, refuses size mismatch, that the endpoint's stream is only used by Send→Message.Write, process→Message.Read, Close and String, that process dispatches synchronously between reads, and that enqueueing is non-blocking, under the handler mutex and only on the matching filter.",
+  "Decides that Message.Write hands its writer to exactly one WriteN call with the bytes of a private buffer filled header-then-payload, refuses size mismatch, that the endpoint's stream is only used by Send→Message.Write, process→Message.Read, Close and String, that WriteN hands the whole remaining buffer to each Write, that process dispatches synchronously between reads (directly or through a receive helper of its own), that a handler slot is found and filled in one critical section, and that enqueueing is non-blocking, under the handler mutex, only on the matching filter and offered to every handler.",
   "Atomicity of one Write on each transport and per-sender ordering under all schedules are not decided.",
   "DESIGN.md §3 C10")
 
@@ -71,7 +71,7 @@ claim("C17",
 claim("C07",
   "wire-integer taint analysis over SSA with guarded-reachability sanitisers + recursive minimum-consumption summaries + call-graph panic reachability",
   "Decides the clause visible in the code's shape: no allocation size or loop bound comes from an integer read off the wire without a constant (or existing-capacity) upper bound, and none that went through a signed type reaches a panicking sink without a lower bound; loops bounded by a wire count must consume at least one byte per iteration (callee summaries computed from ReadN constant lengths). Plus: no explicit panic reachable from a decoder, checked arities of parallel slices in the signature node builders, unchecked assertions confined to confirmed sites.",
-  "Absence of implicit panics and hangs in general, and time/memory proportional to input, are not decided (need execution). Known findings D8 (generated decoders allocate from the wire count, 16 sites) and D16 (varReader loops over zero-width elements) are listed in known_findings.txt.",
+  "Absence of implicit panics and hangs in general, and time/memory proportional to input, are not decided (need execution). The rule is interprocedural for allocation parameters and also decides that no two alternatives of an ordered choice of the signature / IDL grammars share a prefix with a non-terminal (exponential backtracking: D20, fixed). Known finding D8 (generated decoders allocate from the wire count, 16 sites) is listed in known_findings.txt.",
   "DESIGN.md §3 C07")
 
 claim("C08",
@@ -108,7 +108,7 @@ claim("C09",
 claim("C18",
   "table agreement between IDL printers and IDL grammar (AST constants) + component-registration and assertion checks over SSA",
   "Decides that every IDL type name printed is parsed back by the same constructor, that composite and line-level tokens printed are atoms of the parser, that the uid is read back as printed into a uint32, that composite types register all their components, and that IDL node builders assert unchecked only to terminals.",
-  "Identity on all meta-objects and parser totality on arbitrary text are not decided. Known finding D14 (void prints as 'nothing') listed in known_findings.txt.",
+  "Identity on all meta-objects and parser totality on arbitrary text are not decided. Declared names (struct, field, action) are printed as stored. D14 (void printed as 'nothing') was repaired in /repo.",
   "DESIGN.md §3 C18")
 
 claim("C20",
